@@ -406,7 +406,7 @@ theorem stepCore_flat (c : St) (e : Ev) :
   | send sid topic key msgs =>
     simp only [stepCore, step]
     by_cases h1 : sid = c.nextSid
-    · by_cases h2 : msgs.isEmpty = true
+    · by_cases h2 : (msgs.isEmpty || c.stopping) = true
       · simp [ofCore, h1, h2, lift]
       · simp only [ofCore, h1, h2, ne_eq, not_true_eq_false, if_false, Bool.false_eq_true, doSend]
         exact checkSendBatch_flat cfg act _
